@@ -100,6 +100,8 @@ def run_c14(res, tier):
     import front
     ast = load_ast()
     front.run_cell_rules(res, ast)
+    import padic
+    padic.run_cell_algebra(res, ast)
     import mirrules
     from mir import load_facts
     fx = load_facts()
@@ -299,13 +301,20 @@ META = {
         explanation="E1 rules over src/hasher.rs, imports of every library file, src/bc.rs iteration sites, executor struct definitions and codegen.rs.",
         not_decided=["absence of value-dependent panics (assert!(replacements.is_empty()), unwrap on live ranges, counter underflow)", "the polynomial bound on optimisation cost"]),
     "C14": dict(
-        technique="cast-chain, constant and delegation checks on the four CellType impls and the trait's default conversions; sibling agreement",
-        claim="Decides the conversion clause (zero/sign extension, truncation round-trips) and the constants of all four widths (CELL-CASTS, CELL-CONSTS, "
-              "CELL-DELEGATE, CELL-SIBLINGS, WRAP-BY-TYPE). The contracts of wrapping_div / wrapping_inv / wrapping_pow are number theory over all operands "
-              "and are not decided by any static rule.",
-        note=TRUST,
-        explanation="E1 rules over src/lib.rs.",
-        not_decided=["wrapping_div returns the smallest solution and None exactly when none exists", "wrapping_inv exists exactly for odd values", "wrapping_pow equals repeated multiplication"]),
+        technique="abstract interpretation in two algebraic domains over symbolic operands (exponent domain with an inductively checked conserved quantity for wrapping_pow; "
+                  "2-adic polynomial domain with inverse-precision atoms for wrapping_inv / wrapping_div, compared case by case with an oracle stated from the contract); "
+                  "cast-chain, constant and delegation checks on the four CellType impls; sibling agreement",
+        claim="Decides, for all operands at each of the four widths: wrapping_pow returns base^exp (POW-INVARIANT: the loop conserves result * base^exp on every path of an "
+              "iteration, the exponent shrinks, the loop is left only when nothing remains to multiply in); wrapping_inv returns Some(x) with self*x = 1 (mod 2^W) for odd "
+              "self and None otherwise (INV-CONTRACT); wrapping_div returns Some(0) for n = 0, None when tz(n) < tz(d), and otherwise a solution x with x*d = n (mod 2^W) "
+              "and x < 2^(W - tz(d)), i.e. the smallest (DIV-CONTRACT; 480 cases of width x tz(d) x relation of tz(n) to tz(d), operands symbolic). Also the conversion "
+              "clause and the constants of all four widths (CELL-CASTS, CELL-CONSTS, CELL-DELEGATE, CELL-SIBLINGS, WRAP-BY-TYPE).",
+        note=TRUST + " Number theory used as rules (not derived): for odd a, a*a = 1 (mod 8) and a^e = 1 (mod 2^k) for all odd a iff lambda(2^k) | e, with "
+             "lambda(2) = 1, lambda(4) = 2, lambda(2^k) = 2^(k-2); the solutions of x*d = n (mod 2^W) with s = tz(d) <= tz(n) form one residue class modulo 2^(W-s). The primitive "
+             "operations have the meaning CELL-DELEGATE establishes (wrapping_shl/shr give 0 when the amount reaches the width).",
+        explanation="E1 rules over src/lib.rs; lib/padic.py evaluates the three default methods of the trait in the algebraic domains.",
+        not_decided=["the optimiser's use of these helpers (trip counts, geometric-series closed form in src/opt.rs): that is C05",
+                     "termination of wrapping_pow beyond 'the exponent shrinks in every iteration'"]),
     "C16": dict(
         technique="table checks of the CLI plumbing: flag literal -> assignment, defaults, width and back-end dispatch, mode chain, exit code",
         claim="Decides the plumbing of the binary, which has no test at all: flag table, defaults, concatenation order, width/back-end dispatch, mode "
